@@ -33,6 +33,19 @@ ASSUMPTIONS = ["documents from the claimed space only (harness/simpledocs.py imp
 PROVU = "http://www.w3.org/ns/prov#"
 
 
+def sc_doc(d):
+    """set-based strict content: per bundle the set of records (kind, identifier URI, set of (attribute URI, value with
+    its Python kind / datatype / language / offset)) — RDF is a set of triples, but the kind of every value counts"""
+    from harness.content import content_doc
+
+    def tup(x):
+        return tuple(tup(y) for y in x) if isinstance(x, list) else x
+    out = {}
+    for b in content_doc(d)[1:]:
+        out[b[1]] = frozenset((r[1], r[2], frozenset((a, tup(v)) for a, v in r[3])) for r in b[2:])
+    return out
+
+
 def roundtrip_case(d, rng, shuffles):
     """Returns list of failures for one document."""
     import prov.model as M
@@ -40,7 +53,7 @@ def roundtrip_case(d, rng, shuffles):
     from rdflib import ConjunctiveGraph
     fails = []
     try:
-        want = lc_doc(d.unified())
+        want = sc_doc(d.unified())
     except Exception as e:
         return [{"what": "unified() raised on a document of the claimed space", "exc": repr(e)[:200]}]
     try:
@@ -51,7 +64,7 @@ def roundtrip_case(d, rng, shuffles):
         d2 = M.ProvDocument.deserialize(content=text, format="rdf")
     except Exception as e:
         return [{"what": "reading back the emitted TriG raised", "exc": repr(e)[:300]}]
-    got = lc_doc(d2)
+    got = sc_doc(d2)
     if got != want:
         diff = []
         for k in set(want) | set(got):
@@ -77,7 +90,7 @@ def roundtrip_case(d, rng, shuffles):
             ser = ProvRDFSerializer()
             ser.document = d3
             ser.decode_document(g2, d3)
-            if lc_doc(d3) != want:
+            if sc_doc(d3) != want:
                 fails.append({"what": "decoding the same quads in another order gives another document"})
                 break
         except Exception as e:
@@ -145,6 +158,30 @@ def shape_sweep(tier):
                 add(d, t, cls, 0, s1, EX["s"], EX["o"])
                 add(d, t, cls, 1, s2, EX["s"], EX["o"] if same_obj else EX["o2"])
                 yield ("%s pair %r %r same_obj=%s" % (t.localpart, s1, s2, same_obj), d)
+
+
+def value_pair_docs():
+    """fixed documents: two attributes of one entity (and of two entities) holding values that compare equal or print
+    alike but differ in kind — 1/True, 0/False, '1'/1, a URI and a qualified name for the same URI, a string and a
+    language-tagged string, two datetimes denoting one instant in different zones"""
+    import datetime
+    import itertools
+    import prov.model as M
+    from prov.identifier import Identifier, Namespace
+    EX = Namespace("ex", "http://example.org/")
+    tz = datetime.timezone
+    vals = [1, True, 0, False, "1", "true", "True", "", Identifier("http://example.org/x"), EX["x"], "http://example.org/x",
+            M.Literal("x", langtag="en"), "x",
+            datetime.datetime(2012, 3, 31, 9, 21, tzinfo=tz.utc),
+            datetime.datetime(2012, 3, 31, 11, 21, tzinfo=tz(datetime.timedelta(hours=2))),
+            datetime.datetime(2012, 3, 31, 9, 21)]
+    for a, b in itertools.permutations(range(len(vals)), 2):
+        if a > b and type(vals[a]) is type(vals[b]):
+            continue
+        d = M.ProvDocument(); d.add_namespace(EX)
+        d.entity(EX["e1"], [(EX["p"], vals[a]), (EX["q"], vals[b])])
+        d.entity(EX["e2"], [(EX["p"], vals[b])])
+        yield ("value pair %r / %r" % (vals[a], vals[b]), d)
 
 
 def rel_descriptors(d):
@@ -353,6 +390,17 @@ def run(tier, seed, log, model_runs=True, enlarged=False):
         for f in fails:
             violations.append({"kind": "failing-input", "failure": dict(f, shape=desc), "provn": d.get_provn()[:2500]})
     log("shape sweep: %d documents in %.1fs" % (nsweep, time.time() - t1))
+    npairs = 0
+    for desc, d in value_pair_docs():
+        npairs += 1
+        try:
+            fails = roundtrip_case(d, rng, 0)
+        except Exception:
+            violations.append({"kind": "harness-error", "what": "harness error", "detail": traceback.format_exc()[-1500:]})
+            continue
+        for f in fails:
+            violations.append({"kind": "failing-input", "failure": dict(f, shape=desc), "provn": d.get_provn()[:2500]})
+    log("value pairs: %d documents" % npairs)
     disagreements = []
     npred = 0
     if model_runs:
@@ -393,7 +441,9 @@ def run(tier, seed, log, model_runs=True, enlarged=False):
                 "compared set-based with unified(); the decoder is re-run on graphs rebuilt in shuffled quad order; distinct = "
                 "distinct PROV-N text; plus the systematic shape sweep: every relation kind x identified/anonymous x subset of optional "
                 "formal arguments x kind of extra attribute (none, role, custom, label+int, custom type), alone and in pairs on "
-                "one subject with the same or another object (quick: every 7th pair), restricted to the quantifier",
+                "one subject with the same or another object (quick: every 7th pair), restricted to the quantifier; plus documents "
+                "holding pairs of values that compare equal or print alike but differ in kind (1/True, '1'/1, URI/qualified name, "
+                "plain/language-tagged, one instant in two zones)",
         "samples": [simpledocs.simple_doc(random.Random(seed)).get_provn()[:1200]],
         "traces_validated_against_impl": npred,
         "disagreements_checked": len(disagreements),
